@@ -226,7 +226,7 @@ def u_flow_driven(W, sk):
 # dynamic stock models: shared postconditions
 
 
-def check_tables(W, S, name, inflow, whole_period_inflow=True):
+def check_tables(W, S, name, inflow, stock_rep=False):
     """C09 clauses about the cohort tables and totals (after compute)."""
     s = S.s
     n = S.n
@@ -257,11 +257,21 @@ def check_tables(W, S, name, inflow, whole_period_inflow=True):
     )
     W.forall_range(f"{name}.stock_by_cohort.zero_for_later_cohorts", rngs, lambda idx: W.implies(idx[1] > idx[0], W.num_eq(sbc(*idx), 0)))
     W.forall_range(f"{name}.outflow_by_cohort.zero_for_later_cohorts", rngs, lambda idx: W.implies(idx[1] > idx[0], W.num_eq(obc(*idx), 0)))
-    W.forall_range(
-        f"{name}.stock_is_sum_of_cohorts",
-        [(0, n)] + S.extra_ranges(),
-        lambda idx: W.num_eq(stock(*idx), W.sum1("c", 0, n, lambda c: sbc(idx[0], c, *idx[1:]))),
-    )
+    if stock_rep and W.symbolic:
+        # stock-driven model: the stock is prescribed; its representation as the sum over all cohorts was
+        # proved above (compute.stock_reproduced), the table entries equal the summands (formula above)
+      for rr in W.index_choices("sr_r", S.esizes):
+        tagr = "" if not any(isinstance(a, int) for a in rr) else f"[{','.join(map(str, rr))}]"
+        tt = W.fresh_int("sr_t", 0, n)
+        W.lemma_sum_ext(f"{name}.stock_is_sum_of_cohorts{tagr}.summands", 0, n, lambda c: sbc(tt, c, *rr), lambda c: inflow(c, *rr) * S.dtk(c) * sf(tt, c, *rr))
+        W.c.assume(to_real(stock(tt, *rr)) == to_real(W.sum1("c", 0, n, lambda c: inflow(c, *rr) * S.dtk(c) * sf(tt, c, *rr))), why="compute.stock_reproduced (proved above, universally)")
+        W.prove(f"{name}.stock_is_sum_of_cohorts{tagr}", W.num_eq(stock(tt, *rr), W.sum1("c", 0, n, lambda c: sbc(tt, c, *rr))))
+    else:
+        W.forall_range(
+            f"{name}.stock_is_sum_of_cohorts",
+            [(0, n)] + S.extra_ranges(),
+            lambda idx: W.num_eq(stock(*idx), W.sum1("c", 0, n, lambda c: sbc(idx[0], c, *idx[1:]))),
+        )
     W.forall_range(
         f"{name}.outflow_is_sum_of_cohorts",
         [(0, n)] + S.extra_ranges(),
@@ -280,17 +290,18 @@ def check_tables(W, S, name, inflow, whole_period_inflow=True):
 
     # cohort conservation: what entered = what is still in stock + what has left so far
     if W.symbolic:
+      for r in W.index_choices("cc_r", S.esizes):
+        tagr = "" if not any(isinstance(a, int) for a in r) else f"[{','.join(map(str, r))}]"
         c = W.fresh_int("cc_c", 0, n)
         t = W.fresh_int("cc_t", c, n)
-        r = tuple(W.fresh_int(f"cc_r{j}", 0, e) for j, e in enumerate(S.esizes))
         g = lambda k: obc(k, c, *r) * S.dtk(k)
         h = lambda k: inflow(c, *r) * S.dtk(c) * pdf(k, c, *r)
-        W.lemma_sum_ext(f"{name}.cohort_conservation.outflow_terms", c, t + 1, g, h)
+        W.lemma_sum_ext(f"{name}.cohort_conservation{tagr}.outflow_terms", c, t + 1, g, h)
         G = lambda k: W.ite(k < c, 1, sf(k, c, *r))
-        W.lemma_sum_ext(f"{name}.cohort_conservation.pdf_as_differences", c, t + 1, lambda k: pdf(k, c, *r), lambda k: G(k - 1) - G(k))
-        W.lemma_telescope(f"{name}.cohort_conservation.telescope", c, t + 1, G)
+        W.lemma_sum_ext(f"{name}.cohort_conservation{tagr}.pdf_as_differences", c, t + 1, lambda k: pdf(k, c, *r), lambda k: G(k - 1) - G(k))
+        W.lemma_telescope(f"{name}.cohort_conservation{tagr}.telescope", c, t + 1, G)
         goal = W.num_eq(inflow(c, *r) * S.dtk(c), sbc(t, c, *r) + W.sum1("k", c, t + 1, g))
-        W.prove(f"{name}.cohort_conservation", goal, detail="inflow(c) dt(c) = stock_by_cohort(t,c) + sum_{c<=k<=t} outflow_by_cohort(k,c) dt(k)")
+        W.prove(f"{name}.cohort_conservation{tagr}", goal, detail="inflow(c) dt(c) = stock_by_cohort(t,c) + sum_{c<=k<=t} outflow_by_cohort(k,c) dt(k)")
     else:
 
         def conserve(idx):
@@ -315,8 +326,14 @@ def check_balance_from_cohorts(W, S, name, inflow):
     if not W.symbolic:
         W.forall_range(f"{name}.mass_balance", rngs, lambda idx: balance_goal(W, S, stock, inflow, outflow, idx[0], idx[1:]), detail="stock(t) - stock(t-1) = dt(t) * (inflow(t) - outflow(t))")
         return
-    idx = [W.fresh_int(f"b{j}", lo, hi) for j, (lo, hi) in enumerate(rngs)]
-    t, r = idx[0], tuple(idx[1:])
+    for r in W.index_choices("b_r", S.esizes):
+        _balance_at(W, S, name, inflow, sbc, obc, stock, outflow, W.fresh_int("b_t", 0, n), r)
+
+
+def _balance_at(W, S, name, inflow, sbc, obc, stock, outflow, t, r):
+    n = S.n
+    if any(isinstance(a, int) for a in r):
+        name = f"{name}[{','.join(map(str, r))}]"
     first = bool(t == 0)  # case split (forks the path): no conditional inside the sums
     prev_sbc = (lambda c: 0) if first else (lambda c: sbc(t - 1, c, *r))
     f = lambda c: sbc(t, c, *r) - prev_sbc(c) + S.dtk(t) * obc(t, c, *r)
@@ -369,3 +386,210 @@ def u_inflow_driven(W, sk):
     if check_tables(W, S, "compute", inflow0) is None:
         return
     check_balance_from_cohorts(W, S, "compute", inflow0)
+
+
+# ----------------------------------------------------------------------------------------
+# StockDrivenDSM
+
+
+def row_equation(W, S, x, stock, k, r):
+    """sum_{j<k} sf[k,j,r] x[j,r] + sf[k,k,r] x[k,r] = stock[k,r]"""
+    sf = S.rd(S.sf)
+    return W.num_eq(W.sum1("j", 0, k, lambda j: sf(k, j, *r) * x(j, *r)) + sf(k, k, *r) * x(k, *r), stock(k, *r))
+
+
+class ManualSolverLoop:
+    """loop contract for the forward substitution in StockDrivenDSM._compute_inflow_manual
+    invariant Inv(i):  for all k < i and all r: the row equation k holds for inflow_whole_period"""
+
+    def __init__(self, W, S, stock):
+        self.W, self.S, self.stock = W, S, stock
+        self.pre = None
+
+    def _X(self, L):
+        X = L.get("inflow_whole_period")
+        if not isinstance(X, symnp.SymArr):
+            raise core.Unsupported("loop contract: local 'inflow_whole_period' not found (loop structure changed)")
+        return X
+
+    def entry(self, L, lo):
+        self.W.prove("manual.loop.starts_at_zero", self.W.size_eq(lo, 0) if not isinstance(lo, int) else lo == 0, kind="invariant")
+
+    def havoc(self, L):
+        self.name, self.f = symnp.havoc(self._X(L), "X")
+
+    def assume_inv(self, L, i):
+        W, S = self.W, self.S
+        X = self._X(L)
+        pre = X.frozen()
+        self.pre = lambda *idx: wrap(pre(tuple(idx)))
+        zi = to_int(i)
+        es = [to_int(e) for e in S.esizes]
+        stock = self.stock
+        prex = self.pre
+
+        def fact(k, *r):
+            rng = [k >= 0, k < zi] + [z3.And(a >= 0, a < e) for a, e in zip(r, es)]
+            return z3.Implies(z3.And(*rng), core.as_z3_bool(row_equation(W, S, prex, stock, wrap(k), tuple(wrap(a) for a in r))))
+
+        W.c.add_trigger(self.name, fact)
+
+    def preserve(self, L, i1):
+        W, S = self.W, self.S
+        X = self._X(L)
+        post_f = X.frozen()
+        post = lambda *idx: wrap(post_f(tuple(idx)))
+        k = W.fresh_int("inv_k", 0, i1)
+        r = tuple(W.fresh_int(f"inv_r{j}", 0, e) for j, e in enumerate(S.esizes))
+        sf = S.rd(S.sf)
+        W.lemma_sum_ext("manual.loop.rows_below_untouched", 0, k, lambda j: sf(k, j, *r) * post(j, *r), lambda j: sf(k, j, *r) * self.pre(j, *r))
+        W.prove("manual.loop.invariant_preserved", row_equation(W, S, post, self.stock, k, r), kind="invariant", detail="row equations hold for all rows up to and including the one just solved")
+
+
+def solve_triangular_contract(W, S, calls):
+    """contract stub of scipy.linalg.solve_triangular(a, b, lower=True): returns x with
+    sum_{j<=k} a[k,j] x[j] = b[k] for all k (requires a non-zero diagonal); b is destroyed only if overwrite_b"""
+    import itertools as _it
+
+    ids = _it.count()
+
+    def stub(a, b, lower=False, overwrite_b=False, **kw):
+        if kw:
+            raise core.Unsupported(f"solve_triangular with options {sorted(kw)}")
+        W.prove("lapack.call.lower_triangular_requested", lower is True, kind="callee-pre")
+        n = a.shape[0]
+        W.prove("lapack.call.shapes", bool(W.size_eq(a.shape[1], n)) and bool(W.size_eq(b.shape[0], n)) and a.ndim == 2 and b.ndim == 1, kind="callee-pre")
+        az, bz = a.frozen(), b.frozen()
+        W.forall_range("lapack.call.nonzero_diagonal", [(0, n)], lambda idx: wrap(az((idx[0], idx[0])) != 0), kind="callee-pre")
+        x = symnp.SymArr.input(f"lapack_x{next(ids)}", (n,))
+        nm = x._buf.origin.split(":", 1)[1]
+        xf = x.frozen()
+        zn = to_int(n)
+
+        def fact(k):
+            kk = wrap(k)
+            s = W.sum1("j", 0, kk, lambda j: wrap(az((to_int(j) if not isinstance(j, int) else j, ))) if False else wrap(az((k, to_int(j)))) * wrap(xf((to_int(j),))))
+            return z3.Implies(z3.And(k >= 0, k < zn), to_real(s) + az((k, k)) * xf((k,)) == bz((k,)))
+
+        W.c.add_trigger(nm, fact)
+        if overwrite_b:
+            symnp.havoc(b, "overwritten_b")
+        calls.append((a, b, x))
+        return x
+
+    return stub
+
+
+STOCK_TARGETS = [
+    "flodym.stocks.StockDrivenDSM.compute",
+    "flodym.stocks.StockDrivenDSM._compute_cohorts_and_inflow",
+    "flodym.stocks.StockDrivenDSM._compute_inflow_manual",
+    "flodym.stocks.StockDrivenDSM._compute_inflow_lapack",
+    "flodym.stocks.StockDrivenDSM._check_needed_arrays",
+    "flodym.stocks.DynamicStockModel._compute_outflow",
+    "flodym.stocks.DynamicStockModel._n_t",
+    "flodym.stocks.DynamicStockModel._shape_no_t",
+    "flodym.stocks.Stock._to_annual",
+    "flodym.stocks.Stock._to_whole_period",
+]
+
+
+def run_stock_driven(W, S):
+    """calls compute() on the stock-driven model of setup S under the loop / callee contracts.
+    -> (outcome, reader of the prescribed stock, reader of the solver's whole-period solution or None)"""
+    import flodym.stocks as st
+
+    s = S.s
+    stock0 = S.rd(s.stock.values.copy())
+    solution = None
+    if W.symbolic:
+        calls = []
+        stubs = [(st, "solve_triangular", solve_triangular_contract(W, S, calls))]
+        if s.solver == "manual":
+            lc = ManualSolverLoop(W, S, stock0)
+            W.c.loop_contracts.append(lc)
+            out = W.call(lambda: s.compute(), stubs=stubs)
+            solution = lambda j, *r: lc.pre(j, *r)
+        else:
+            out = W.call(lambda: s.compute(), stubs=stubs)
+            cols = list(itertools.product(*[range(int(e)) for e in S.esizes]))
+            if len(calls) == len(cols):
+                bycol = {c: W_x for c, (_, _, W_x) in zip(cols, calls)}
+                solution = lambda j, *r: wrap(bycol[tuple(int(a) for a in r)].at(j))
+    else:
+        out = W.call(lambda: s.compute())
+    return out, stock0, solution
+
+
+def prove_system_solved(W, S, name, stock0):
+    """P1: x = inflow * dt solves the triangular system;  P2: stock[t] = sum_{c<n} x[c] sf[t,c]"""
+    s = S.s
+    n = S.n
+    sf = S.rd(S.sf)
+    inflow = S.rd(s.inflow.values)
+    x = lambda j, *r: inflow(j, *r) * S.dtk(j)
+    rngs = [(0, n)] + S.extra_ranges()
+    if not W.symbolic:
+        W.forall_range(f"{name}.system_solved", rngs, lambda idx: row_equation(W, S, x, stock0, idx[0], idx[1:]))
+        W.forall_range(f"{name}.stock_reproduced", rngs, lambda idx: W.num_eq(stock0(*idx), W.sum1("c", 0, n, lambda c: x(c, *idx[1:]) * sf(idx[0], c, *idx[1:]))))
+        return x
+    k = W.fresh_int("p_k", 0, n)
+    r = tuple(W.fresh_int(f"p_r{j}", 0, e) for j, e in enumerate(S.esizes))
+    return x, k, r
+
+
+@unit(
+    "stocks.stock_driven.compute",
+    props=["C03", "C09", "C10", "C13", "C15"],
+    targets=STOCK_TARGETS,
+    skeletons=lambda tier: [{"extra": e, "solver": "manual"} for e in range(0, (3 if tier == "thorough" else 2))]
+    + [{"extra": 0, "solver": "lapack", "sizes": []}, {"extra": 1, "solver": "lapack", "sizes": [1]}, {"extra": 1, "solver": "lapack", "sizes": [2]}]
+    + ([{"extra": 2, "solver": "lapack", "sizes": [1, 2]}, {"extra": 2, "solver": "lapack", "sizes": [2, 2]}] if tier == "thorough" else []),
+    stubs=["flodym.lifetime_models.LifetimeModel.sf", "flodym.lifetime_models.LifetimeModel.pdf", "flodym.lifetime_models.UnevenTimeDim.interval_lengths", "scipy.linalg.solve_triangular"],
+    note="manual solver: loop invariant over a symbolic number of rows; lapack solver: contract of solve_triangular assumed, loop over the non-time indices unrolled for concrete extra sizes (bounded: 1-2 items per extra dimension); precondition of C10: sf[c,c] > 0",
+)
+def u_stock_driven(W, sk):
+    S = Setup(W, "stock", sk["extra"], solver=sk["solver"], concrete_extra=sk.get("sizes") if sk["solver"] == "lapack" else None)
+    s = S.s
+    snaps = SL.snapshot(W, [s.stock])
+    out, stock0, solution = run_stock_driven(W, S)
+    W.prove("compute.returns", out.kind == "return", detail=repr(out))
+    if out.kind != "return":
+        return
+    SL.check_unchanged(W, "compute(driver)", snaps)
+    if not (SL.check_wf(W, "compute.inflow", s.inflow) and SL.check_wf(W, "compute.outflow", s.outflow)):
+        return
+    n = S.n
+    sf = S.rd(S.sf)
+    inflow = S.rd(s.inflow.values)
+    if not W.symbolic:
+        x = prove_system_solved(W, S, "compute", stock0)
+        if check_tables(W, S, "compute", inflow) is None:
+            return
+        check_balance_from_cohorts(W, S, "compute", inflow)
+        return
+    x = lambda j, *r: inflow(j, *r) * S.dtk(j)
+    W.prove("compute.solver_contract_available", solution is not None, detail="loop / callee contract was exercised")
+    if solution is None:
+        return
+    if s.solver == "manual":
+        r_choices = [tuple(W.fresh_int(f"p_r{j}", 0, e) for j, e in enumerate(S.esizes))]
+    else:
+        r_choices = list(itertools.product(*[range(int(e)) for e in S.esizes]))
+    for r in r_choices:
+        tag = "" if s.solver == "manual" else f"[{','.join(map(str, r))}]"
+        # P1: the triangular system is solved by x = inflow * dt  (the solver's solution divided and re-multiplied by dt)
+        k = W.fresh_int("p_k", 0, n)
+        W.lemma_sum_ext(f"compute.system_solved{tag}.x_is_solution", 0, k, lambda j: sf(k, j, *r) * x(j, *r), lambda j: sf(k, j, *r) * solution(j, *r))
+        W.prove(f"compute.system_solved{tag}", row_equation(W, S, x, stock0, k, r), detail="sum_{j<=k} sf[k,j] x[j] = stock[k], x = inflow * dt")
+        # P2: stock[t] = sum over all cohorts (the tail beyond the diagonal vanishes)
+        t = k
+        full = lambda c: x(c, *r) * sf(t, c, *r)
+        W.lemma_sum_split(f"compute.stock_reproduced{tag}.split", 0, t + 1, n, full)
+        W.lemma_sum_zero(f"compute.stock_reproduced{tag}.tail", t + 1, n, full)
+        W.lemma_sum_unfold_last(f"compute.stock_reproduced{tag}.diagonal", 0, t + 1, full)
+        W.lemma_sum_ext(f"compute.stock_reproduced{tag}.reorder", 0, t, full, lambda j: sf(t, j, *r) * x(j, *r))
+        W.prove(f"compute.stock_reproduced{tag}", W.num_eq(stock0(t, *r), W.sum1("c", 0, n, full)), detail="driving an inflow-driven model with this inflow reproduces the prescribed stock")
+    if check_tables(W, S, "compute", inflow, stock_rep=True) is None:
+        return
+    check_balance_from_cohorts(W, S, "compute", inflow)
